@@ -264,10 +264,12 @@ func decodeTargetableBody(body hcl.Body, parentBlock *ast.BlockContent, tt *sche
 	target := reference.Target{
 		Addr:        tt.Address.Copy(),
 		ScopeId:     tt.ScopeId,
-		RangePtr:    parentBlock.Range.Ptr(),
-		DefRangePtr: parentBlock.DefRange.Ptr(),
 		Type:        tt.AsType,
 		Description: tt.Description,
+	}
+	if parentBlock != nil {
+		target.RangePtr = parentBlock.Range.Ptr()
+		target.DefRangePtr = parentBlock.DefRange.Ptr()
 	}
 
 	if tt.NestedTargetables != nil {
